@@ -2,6 +2,7 @@ package cfs
 
 import (
 	"encoding/json"
+	"os"
 	"testing"
 
 	"github.com/emersion/go-webdav/verifharness/vev"
@@ -15,6 +16,16 @@ func TestReplay(t *testing.T) {
 	}{{rec01, func(v verdicts) vev.Outcome { return v.o01 }}, {rec02, func(v verdicts) vev.Outcome { return v.o02 }}, {rec17, func(v verdicts) vev.Outcome { return v.o17 }}} {
 		x := x
 		vev.RunReplays(t, x.rec, func(kind string, raw json.RawMessage) (vev.Outcome, error) {
+			if kind == "cfs-modes" {
+				var mc ModeCase
+				if err := json.Unmarshal(raw, &mc); err != nil {
+					return vev.Outcome{}, err
+				}
+				m := newModeEnv(t, mc.ViaLink)
+				defer os.RemoveAll(m.base)
+				_, o, err := m.run(mc.Req)
+				return o, err
+			}
 			var c Case
 			if err := json.Unmarshal(raw, &c); err != nil {
 				return vev.Outcome{}, err
